@@ -290,7 +290,7 @@ def case(args):
             if len(out['samples']) < 1:
                 out['samples'].append({'op': op, 'statements': sum(1 for e in events if e[0] == 'stmt'), 'status': r0.status})
         sync_faults(out, rng)
-    except Exception:
+    except BaseException:      # incl. an escaped RequestHang: a dead pool worker would hang the check
         out['error'] = traceback.format_exc()
     return out
 
